@@ -21,30 +21,37 @@ type c41Case struct {
 
 const c41Interval = 100000 // validator checkpoint interval (state/store.go)
 
-func c41SameValSet(got *types.ValidatorSet, want *types.ValidatorSet, what string) error {
+// c41SameValSet compares a loaded set with the one in effect. prioOnly reports
+// that members, keys and powers agree and only proposer priorities (or the
+// proposer derived from them) differ.
+func c41SameValSet(got *types.ValidatorSet, want *types.ValidatorSet, what string) (err error, prioOnly bool) {
 	if got == nil || want == nil {
-		return fmt.Errorf("%s: nil validator set (got %v want %v)", what, got, want)
+		return fmt.Errorf("%s: nil validator set (got %v want %v)", what, got, want), false
 	}
 	if got.Size() != want.Size() {
-		return fmt.Errorf("%s: %d validators, in effect were %d", what, got.Size(), want.Size())
+		return fmt.Errorf("%s: %d validators, in effect were %d", what, got.Size(), want.Size()), false
 	}
 	for i := 0; i < want.Size(); i++ {
 		_, g := got.GetByIndex(i)
 		_, w := want.GetByIndex(i)
 		if g.Address != w.Address || !g.PubKey.Equals(w.PubKey) || g.VotingPower != w.VotingPower {
-			return fmt.Errorf("%s: validator %d is %v, in effect was %v", what, i, g, w)
+			return fmt.Errorf("%s: validator %d is %v, in effect was %v", what, i, g, w), false
 		}
+	}
+	if got.TotalVotingPower() != want.TotalVotingPower() {
+		return fmt.Errorf("%s: total power %d vs %d", what, got.TotalVotingPower(), want.TotalVotingPower()), false
+	}
+	for i := 0; i < want.Size(); i++ {
+		_, g := got.GetByIndex(i)
+		_, w := want.GetByIndex(i)
 		if g.ProposerPriority != w.ProposerPriority {
-			return fmt.Errorf("%s: validator %d (%v) has proposer priority %d, in effect was %d", what, i, g.Address, g.ProposerPriority, w.ProposerPriority)
+			return fmt.Errorf("%s: validator %d (%v, power %d) has proposer priority %d, in effect was %d", what, i, g.Address, g.VotingPower, g.ProposerPriority, w.ProposerPriority), true
 		}
 	}
 	if gp, wp := got.GetProposer(), want.GetProposer(); gp.Address != wp.Address {
-		return fmt.Errorf("%s: proposer %v, in effect was %v", what, gp.Address, wp.Address)
+		return fmt.Errorf("%s: proposer %v, in effect was %v", what, gp.Address, wp.Address), true
 	}
-	if got.TotalVotingPower() != want.TotalVotingPower() {
-		return fmt.Errorf("%s: total power %d vs %d", what, got.TotalVotingPower(), want.TotalVotingPower())
-	}
-	return nil
+	return nil, false
 }
 
 // c41Model compares a validator set with the harness model (membership and power).
@@ -193,7 +200,28 @@ func c41Exec(ctx *vk.Ctx, c c41Case) error {
 		if err := c41Model(got, ch.ValsAt[h], fmt.Sprintf("LoadValidators(%d)", h)); err != nil {
 			return err
 		}
-		if err := c41SameValSet(got, want, fmt.Sprintf("LoadValidators(%d) [initial height %d, last %d]", h, ih, last)); err != nil {
+		if err, prioOnly := c41SameValSet(got, want, fmt.Sprintf("LoadValidators(%d) [initial height %d, last %d]", h, ih, last)); err != nil {
+			// divergence under triage: at heights where the store keeps only a
+			// reference, the set is rebuilt from the last stored one by a single
+			// rescale followed by k priority increments, while the state rescales
+			// before each of the k increments
+			reconstructed := !ch.FullSetAt[h] && h%c41Interval != 0
+			if prioOnly && reconstructed {
+				// exactly that divergence? rebuild from the set in effect at the
+				// last height the store keeps in full
+				hs := h
+				for hs > ih && !ch.FullSetAt[hs] && hs%c41Interval != 0 {
+					hs--
+				}
+				rebuilt := inEffect(hs).Copy()
+				rebuilt.IncrementProposerPriority(int(h - hs))
+				if e2, _ := c41SameValSet(got, rebuilt, ""); e2 == nil {
+					ctx.Class("reconstructed-priorities-differ")
+					if ctx.Known("loadvalidators-reconstructed-priorities-differ") {
+						continue
+					}
+				}
+			}
 			return err
 		}
 		if h > ih && !c41EqualModel(ch.ValsAt[h], ch.ValsAt[h-1]) {
